@@ -22,7 +22,10 @@ MANIFEST = {
             "the skeleton of sendRequestMessage/onResponse/request and the constants from the Go source (fail-closed) and Coq "
             "checks it equals the modelled one; harness/cmd/c17 drives two real loopback hosts through early/late/duplicate/"
             "wrong-ID/stale replies, cancellations and latencies racing the timeout, each call is replayed on the model and "
-            "checked against the declarative oracle; len(resCh) and a watchdog are checked per batch.",
+            "checked against the declarative oracle; len(resCh) and a watchdog are checked per batch. The narrow races are forced "
+            "by holding resMu from outside across the deadline / the cancellation (verif hook), and the requester's logger records "
+            "per attempt whether a response was accepted into its channel: an accepted response must be returned, each follow-up "
+            "call must get the payload tagged with its own call.",
     "note": "Trusted: Coq kernel + vm_compute; fidelity of the hand model at the granularity stated in coq/P2P/ReqResp.v "
             "(requester critical sections atomic - the translator checks they contain one map operation only; Go select and "
             "channel semantics; libp2p streams deliver or fail); the translator; harness and glue. Real time is not modelled: "
@@ -236,8 +239,11 @@ def run(ck):
                       "before / well after the timeout (timeout 300 ms, margins >= 250 ms), early crafted reply, duplicates racing or "
                       "following the normal reply, wrong-ID replies, stale replies of earlier attempts arriving during later waits, "
                       "cancellation while waiting, all calls concurrent. Racing batches: latency = timeout +-3 ms with duplicates, "
-                      "16-24 concurrent calls per round on one long-lived host pair. Distinct = (strict, class, delivered kind, "
-                      "attempts, cancel, per-attempt plan shape)")
+                      "16-24 concurrent calls per round on one long-lived host pair; held-lock batches: resMu held across the deadline "
+                      "(with surplus duplicates) or across a cancellation followed by fresh calls; deadline / cancel-race batches: replies "
+                      "timed with microsecond offsets around the timer / the cancellation. Every call also carries, per attempt, whether "
+                      "the requester accepted a response into the attempt's channel. Distinct = (strict, class, delivered kind, "
+                      "attempts, cancel, accepted vector, per-attempt plan shape)")
     ck.extra["traces_validated_against_impl"] = len(calls)
     ck.assume += ["libp2p streams deliver or fail; Go select/channel semantics as modelled; the watchdog budget "
                   "(retries+1)*(timeout+400ms)+3s is enough for a live layer",
